@@ -119,4 +119,25 @@ theorem C11_src_quantity (fee : Qs.FeeModel α) (equity weight price : α) (hp :
   obtain ⟨h1, h2⟩ := Qs.lsQuantity_sign fee equity weight price hp hf0 hf1
   exact ⟨h1, h2, (Qs.lsQuantity_afford fee equity weight price hp).1⟩
 
+/-- **C10 on the source** (parameter domain): the cash buffer is accepted, unchanged, exactly when it lies in `[0, 1]`;
+any other value is refused with `ValueError`. -/
+theorem C10_src_buffer (b : α) :
+    (0 ≤ b ∧ b ≤ 1 → Qs.Gen.DW.checkBuffer b = .ok b) ∧
+    (b < 0 ∨ 1 < b → Qs.Gen.DW.checkBuffer b = .error .value) := by
+  rw [tie_DW_checkBuffer]
+  constructor
+  · rintro ⟨h0, h1⟩
+    simp [Qs.dwCheckBuffer, lt_eq, not_lt.mpr h0, not_lt.mpr h1]
+  · rintro (h | h)
+    · simp [Qs.dwCheckBuffer, lt_eq, h]
+    · simp [Qs.dwCheckBuffer, lt_eq, h]
+
+/-- **C11 on the source** (parameter domain): the gross leverage is accepted, unchanged, exactly when it is positive. -/
+theorem C11_src_leverage (l : α) :
+    (0 < l → Qs.Gen.LS.checkLeverage l = .ok l) ∧ (l ≤ 0 → Qs.Gen.LS.checkLeverage l = .error .value) := by
+  rw [tie_LS_checkLeverage]
+  constructor
+  · intro h; simp [Qs.lsCheckLeverage, le_eq, not_le.mpr h]
+  · intro h; simp [Qs.lsCheckLeverage, le_eq, h]
+
 end Qs.Tie
